@@ -16,6 +16,10 @@ pub enum Kind {
     Market,
     Cancel,
     Modify,
+    /// cancel / re-pricing modify aimed at a limit order submitted earlier in the SAME batch
+    /// (a no-op when processed before that order's placement)
+    CancelNew,
+    ModifyNew,
 }
 
 #[derive(Clone, Copy, Debug, PartialEq, Eq, Hash, PartialOrd, Ord)]
@@ -78,20 +82,41 @@ pub fn run_batch_in<const A: usize>(su: Setup, multi: bool, items: &[Item], scri
                 let (a, id) = targets[i].unwrap();
                 env.modify(a, id, Some(5000), None)
             }
+            Kind::CancelNew | Kind::ModifyNew => {
+                // the nearest limit order submitted earlier in this batch
+                let j = (0..i).rev().find(|&j| items[j].kind == Kind::Limit).ok_or("no earlier limit order in the batch")?;
+                let (a, id) = ids[j].unwrap();
+                targets[i] = Some((a, id));
+                if it.kind == Kind::CancelNew {
+                    env.cancel(a, id)
+                } else {
+                    env.modify(a, id, Some(5000), None)
+                }
+            }
         }
     }
     let mut rng = ScriptRng::new(script.to_vec(), seed);
     env.step(&mut rng);
     let n = items.len();
     let mut order = vec![usize::MAX; n];
+    let mut unobserved: Vec<usize> = Vec::new();
     for i in 0..n {
+        if matches!(items[i].kind, Kind::CancelNew | Kind::ModifyNew) {
+            // processed after its target's placement: the target ended at that instant; processed
+            // before: a no-op, its position is the one no other instruction accounts for
+            let (a, id) = targets[i].unwrap();
+            if env.book(a).order(id).end_time == u64::MAX {
+                unobserved.push(i);
+                continue;
+            }
+        }
         let stamp = match items[i].kind {
             Kind::Limit | Kind::Market => {
                 let (a, id) = ids[i].unwrap();
                 let o = env.book(a).order(id);
                 o.arr_time
             }
-            Kind::Cancel | Kind::Modify => {
+            Kind::Cancel | Kind::Modify | Kind::CancelNew | Kind::ModifyNew => {
                 let (a, id) = targets[i].unwrap();
                 let o = env.book(a).order(id);
                 o.end_time
@@ -105,6 +130,22 @@ pub fn run_batch_in<const A: usize>(su: Setup, multi: bool, items: &[Item], scri
             return Err(format!("two instructions were processed at position {}", pos));
         }
         order[pos] = i;
+    }
+    if unobserved.len() > 1 {
+        return Err("more than one unobservable instruction in the batch (harness restriction)".into());
+    }
+    if let Some(&i) = unobserved.first() {
+        let free: Vec<usize> = (0..n).filter(|&p| order[p] == usize::MAX).collect();
+        if free.len() != 1 {
+            return Err(format!("{} positions unaccounted for, one instruction without a stamp", free.len()));
+        }
+        order[free[0]] = i;
+        // a no-op must have come before the placement it was aimed at
+        let j = (0..i).rev().find(|&j| items[j].kind == Kind::Limit).unwrap();
+        let pj = order.iter().position(|&x| x == j).unwrap();
+        if free[0] > pj {
+            return Err(format!("instruction {} ({:?}) was processed after the placement of its target and yet had no effect", i, items[i]));
+        }
     }
     Ok((order, rng.draws(), rng.bits()))
 }
@@ -433,7 +474,7 @@ fn content_independence<const A: usize>(acc: &Acc, multi: bool, n: usize, summar
 
 fn content_independence_in<const A: usize>(acc: &Acc, su: Setup, multi: bool, n: usize, summary: &mut Vec<serde_json::Value>) {
     // (a re-pricing modify is observed through the trade it causes: only with trading on)
-    let kinds: Vec<Kind> = if su.trading == 0 { vec![Kind::Limit, Kind::Market, Kind::Cancel, Kind::Modify] } else { vec![Kind::Limit, Kind::Market, Kind::Cancel] };
+    let kinds: Vec<Kind> = if su.trading == 0 { vec![Kind::Limit, Kind::Market, Kind::Cancel, Kind::Modify, Kind::CancelNew, Kind::ModifyNew] } else { vec![Kind::Limit, Kind::Market, Kind::Cancel, Kind::CancelNew] };
     let mut words: Vec<Vec<Item>> = vec![vec![]];
     for _ in 0..n {
         let mut next = Vec::new();
@@ -448,6 +489,12 @@ fn content_independence_in<const A: usize>(acc: &Acc, su: Setup, multi: bool, n:
         }
         words = next;
     }
+    // instructions aimed at an order of the same batch: at most one per batch (its position is
+    // inferred when it was a no-op), and only behind a limit order it can aim at
+    words.retain(|w| {
+        let same: Vec<usize> = (0..w.len()).filter(|&i| matches!(w[i].kind, Kind::CancelNew | Kind::ModifyNew)).collect();
+        same.len() <= 1 && same.iter().all(|&i| w[..i].iter().any(|x| x.kind == Kind::Limit))
+    });
     let scripts = all_index_scripts(n);
     // reference: limit-only batch on asset 0
     let base: Vec<Item> = (0..n).map(|_| Item { kind: Kind::Limit, asset: 0 }).collect();
